@@ -1,8 +1,216 @@
 import GraafVerif.Driver.Common
-/-! Driver handlers for property C03 (ops the harness module `ops/c03.rs` emits). -/
-namespace GraafVerif.Driver.H03
-open GraafVerif GraafVerif.Driver
+import GraafVerif.Model.Dijkstra
+/-!
+Driver handlers for property C03 and the DijkstraPred half of C05 (ops of `ops/c03.rs`).
 
-def handlers : List (String × Handler) := []
+  dijkstra_all       <wu-desc> <sources>        => panic | [v…] [[v d]…] [dist…]
+  dijkstra_pred_tree <wu-desc> <sources>        => panic | [[p v]…] [pred…]
+  dijkstra_pred_sp   <wu-desc> <sources> <tgt>  => panic | none | [path]
+
+`tgt` ∈ `[in [ids]] always never`.  `usize::MAX` is printed literally by the harness.
+
+Oracles (only what the properties state): independent distances `wdistB` (Bellman-Ford rounds).
+-/
+namespace GraafVerif.Driver.H03
+open GraafVerif GraafVerif.Driver GraafVerif.Dijkstra
+
+def usizeMax : Int := 18446744073709551615
+
+def distV : Option Int → V
+  | none => .i usizeMax
+  | some d => .i d
+
+def getO {α : Type} (l : List (Option α)) (i : Nat) : Option α := (l[i]?).getD none
+
+def countOf (xs : List Nat) (v : Nat) : Nat := (xs.filter (· == v)).length
+
+/-- First violated clause of "every reachable vertex exactly once, no unreachable one,
+non-decreasing distance" for an emitted vertex sequence. -/
+def seqFail (n : Nat) (wd : List (Option Int)) (vs : List Nat) : Option String :=
+  let unreach := vs.filter (fun v => (getO wd v).isNone)
+  let missing := (List.range n).filter (fun v => (getO wd v).isSome && countOf vs v != 1)
+  let ds := vs.map (fun v => (getO wd v).getD 0)
+  let sorted := (ds.zip (ds.drop 1)).all (fun p => decide (p.1 ≤ p.2))
+  if !unreach.isEmpty then some s!"emits-unreachable-vertex {unreach.head!}"
+  else if !missing.isEmpty then some s!"reachable-vertex-{missing.head!}-emitted-{countOf vs missing.head!}-times"
+  else if !sorted then some "not-in-nondecreasing-distance-order"
+  else none
+
+def firstSome : List (Option String) → Option String
+  | [] => none
+  | some s :: _ => some s
+  | none :: r => firstSome r
+
+def parseSources (n : Nat) (v : V) : Option (List Nat) := do
+  let s ← V.listOf? V.nat? v
+  if s.all (· < n) && s.eraseDups.length == s.length then some s else none
+
+def parseW (v : V) : Option GDesc := do
+  let d ← GDesc.parse v
+  if d.repr == "wu" && d.warcs.all (fun a => decide (0 ≤ a.2.2) && a.1 != a.2.1 && a.1 < d.order && a.2.1 < d.order)
+  then some d else none
+
+/-- Does some popped entry of the model run fail the freshness test (superseded entry)? -/
+def staleCount (g : WGraph) (S : List Nat) : Nat :=
+  -- number of pushes − number of emissions = superseded entries
+  let emitted := (entries g (fun _ => none) S).length
+  let rec pushes (fuel : Nat) (st : State) (acc : Nat) : Nat :=
+    match fuel with
+    | 0 => acc
+    | f+1 => match popMax st.heap with
+      | none => acc
+      | some (e, h) =>
+        if dOf st.dist e.v = some e.d then
+          let st' := (g.out e.v).foldl (relax (fun _ => none) e.v e.d) ⟨st.dist, h⟩
+          pushes f st' (acc + (st'.heap.length - h.length))
+        else pushes f ⟨st.dist, h⟩ acc
+  pushes (fuel g S) (init g.n S) S.length - emitted
+
+def commonTags (d : GDesc) (S : List Nat) (wd : List (Option Int)) : List String :=
+  let reach := (wd.filter Option.isSome).length
+  let zero := d.warcs.any (fun a => a.2.2 == 0)
+  [ sizeTag d.order, s!"src{min S.length 4}",
+    if reach == d.order then "all-reachable" else if reach == 0 then "none-reachable" else "some-unreachable",
+    if zero then "zero-weights" else "positive-weights",
+    if d.warcs.any (fun a => decide (a.2.2 > 9)) then "wide" else "narrow" ]
+
+def hAll : Handler := fun _ args obs =>
+  match args with
+  | [dv, sv] => do
+    let d ← parseW dv
+    let S ← parseSources d.order sv
+    let g := d.wgraph
+    let wd := (wdistB g S).1
+    let mIter := dijkstra g S
+    let mDist := dijkstraDist g S
+    let mDs := distances g S
+    let model : List V := [V.ofNats mIter, .l (mDist.map (fun p => .l [V.ofNat p.1, .i p.2])), .l (mDs.map distV)]
+    let stale := staleCount g S
+    let ties := (mDist.zip (mDist.drop 1)).any (fun p => p.1.2 == p.2.2)
+    let tags := commonTags d S wd ++ [if stale > 0 then "superseded-entry" else "no-superseded", if ties then "ties" else "no-ties"]
+    let nt := d.order ≥ 2 && !S.isEmpty && mIter.length ≥ 2
+    let propFail : Option String :=
+      match obs with
+      | [it, di, ds] =>
+        match V.listOf? V.nat? it, V.listOf? (V.pair? V.nat? V.int?) di,
+              (if ds == V.a "overrun" then some [] else V.listOf? V.int? ds) with
+        | some it, some di, some ds =>
+          firstSome [
+            (seqFail d.order wd it).map ("Dijkstra: " ++ ·),
+            (seqFail d.order wd (di.map (·.1))).map ("DijkstraDist: " ++ ·),
+            (di.find? (fun p => getO wd p.1 != some p.2)).map
+              (fun p => s!"DijkstraDist: item ({p.1}, {p.2}) but minimum walk weight is {distV (getO wd p.1)}"),
+            if di.length > d.order then some "DijkstraDist yields more items than the digraph has vertices" else none,
+            if ds == wd.map (fun o => o.getD usizeMax) then none
+            else some s!"distances() differs from the minimum walk weights {wd.map distV}" ]
+        | _, _, _ => some "output-not-parsable"
+      | _ => some s!"unexpected-output {obs}"
+    pure (classify obs model propFail nt tags)
+  | _ => none
+
+/-- Weight of arc `u → v` (rows are maps: one weight per pair). -/
+def arcW (g : WGraph) (u v : Nat) : Option Int := ((g.out u).find? (fun a => a.1 == v)).map (·.2)
+
+def predFail (g : WGraph) (S : List Nat) (wd : List (Option Int)) (pred : List (Option Nat)) : Option String :=
+  if pred.length != g.n then some "pred-length" else
+  firstSome ((List.range g.n).map (fun v =>
+    match getO wd v, getO pred v with
+    | none, none => none
+    | none, some u => some s!"unreachable vertex {v} has predecessor {u}"
+    | some dv, none => if S.contains v then none else some s!"reachable non-source {v} (distance {dv}) has no predecessor"
+    | some dv, some u =>
+      if S.contains v then some s!"source {v} has predecessor {u}" else
+      match arcW g u v, getO wd u with
+      | some w, some du => if du + w == dv then none else some s!"pred arc {u}->{v} is not tight: {du}+{w} != {dv}"
+      | none, _ => some s!"pred {u}->{v} is not an arc"
+      | _, none => some s!"pred {u} of {v} is unreachable"))
+
+def hPredTree : Handler := fun _ args obs =>
+  match args with
+  | [dv, sv] => do
+    let d ← parseW dv
+    let S ← parseSources d.order sv
+    let g := d.wgraph
+    let wd := (wdistB g S).1
+    let mItems := dijkstraPred g S
+    let mPred := predecessors g S
+    let model : List V := [.l (mItems.map (fun p => .l [V.ofOptNat p.1, V.ofNat p.2])), .l (mPred.map V.ofOptNat)]
+    let tags := "pred-tree" :: commonTags d S wd
+    let nt := d.order ≥ 2 && !S.isEmpty && mItems.length ≥ 2
+    let propFail : Option String :=
+      match obs with
+      | [_, .a "overrun"] => some "DijkstraPred yields more items than the digraph has vertices"
+      | [_, pv] =>
+        match V.listOf? (V.opt? V.nat?) pv with
+        | some pred => predFail g S wd pred
+        | none => some "output-not-parsable"
+      | _ => some s!"unexpected-output {obs}"
+    pure (classify obs model propFail nt tags)
+  | _ => none
+
+def parseTgt : V → Option (Nat → Bool)
+  | .l [.a "in", ts] => do let ts ← V.listOf? V.nat? ts; pure (fun v => ts.contains v)
+  | .a "always" => some (fun _ => true)
+  | .a "never" => some (fun _ => false)
+  | _ => none
+
+/-- Weight of a vertex sequence as a walk, `none` when some step is not an arc. -/
+def walkW (g : WGraph) : List Nat → Option Int
+  | [] => some 0
+  | [_] => some 0
+  | u :: v :: rest => do
+    let w ← arcW g u v
+    let r ← walkW g (v :: rest)
+    pure (w + r)
+
+def minOpt : List Int → Option Int
+  | [] => none
+  | x :: xs => some (xs.foldl min x)
+
+def hPredSp : Handler := fun _ args obs =>
+  match args with
+  | [dv, sv, tv] => do
+    let d ← parseW dv
+    let S ← parseSources d.order sv
+    let isT ← parseTgt tv
+    let g := d.wgraph
+    let wd := (wdistB g S).1
+    let model : List V := match shortestPath g S isT with
+      | .panic => [.a "panic"]
+      | .ret none => [.a "none"]
+      | .ret (some p) => [V.ofNats p]
+    let tdists := (List.range g.n).filterMap (fun v => if isT v then getO wd v else none)
+    let best := minOpt tdists
+    let srcIsTarget := S.any isT
+    let tags := "shortest-path" :: commonTags d S wd ++
+      [ match best with | none => "no-reachable-target" | some _ => if srcIsTarget then "source-is-target" else "target-reachable",
+        if tdists.length ≥ 2 then "competing-targets" else "le1-target" ]
+    let nt := d.order ≥ 2 && !S.isEmpty
+    let propFail : Option String :=
+      match obs, best with
+      | [.a "overrun"], _ => some "DijkstraPred yields more items than the digraph has vertices"
+      | [.a "none"], none => none
+      | [.a "none"], some b => some s!"returned None but a target is reachable at distance {b}"
+      | [pv], best =>
+        match V.listOf? V.nat? pv with
+        | none => some s!"unexpected-output {obs}"
+        | some path =>
+          match best with
+          | none => some "returned a path but no target is reachable"
+          | some b =>
+            match path.head?, path.getLast? with
+            | some a, some z =>
+              if !S.contains a then some s!"path starts at non-source {a}"
+              else if !isT z then some s!"path ends at non-target {z}"
+              else match walkW g path with
+                | none => some "path is not a walk of the digraph"
+                | some w => if w == b then none else some s!"path weight {w} but the nearest target is at {b}"
+            | _, _ => some "empty path"
+      | _, _ => some s!"unexpected-output {obs}"
+    pure (classify obs model propFail nt tags)
+  | _ => none
+
+def handlers : List (String × Handler) :=
+  [("dijkstra_all", hAll), ("dijkstra_pred_tree", hPredTree), ("dijkstra_pred_sp", hPredSp)]
 
 end GraafVerif.Driver.H03
